@@ -720,3 +720,111 @@ Definition nc_set_groups (groups : list str) (name : str) : option str :=
 Definition nc_clear_groups (name : str) : option str :=
   let n := last (split_on slash name) [] in
   match n with [] => Some name | _ => nc_set n end.
+
+(* ------------------------------------------------------------------ group attributes *)
+(* attributes of a group or variable: a Python dict, name -> value, in insertion order *)
+Definition attrs := list (str * str).
+
+(* d[k] = v *)
+Fixpoint attr_set (k v : str) (d : attrs) : attrs :=
+  match d with
+  | [] => [(k, v)]
+  | (k', v') :: r => if str_eqb k' k then (k', v) :: r else (k', v') :: attr_set k v r
+  end.
+
+(* d.update(e) *)
+Definition dict_update (d e : attrs) : attrs := fold_left (fun acc kv => attr_set (fst kv) (snd kv) acc) e d.
+
+(* flattener_attributes: group path (a non-empty tuple) -> the attributes of that group *)
+Fixpoint gattr_lookup (p : list str) (fa : list (list str * attrs)) : option attrs :=
+  match fa with
+  | [] => None
+  | (q, e) :: r => if list_eqb str_eqb q p then Some e else gattr_lookup p r
+  end.
+
+(* NetCDFRead.read: for i in range(1, len(groups) + 1): update with the attributes of groups[:i] -
+   from the outermost group down to the variable's own group, so the nearer group overrides *)
+Fixpoint group_attrs_down (fa : list (list str * attrs)) (pre rest : list str) (acc : attrs) : attrs :=
+  match rest with
+  | [] => acc
+  | g :: r =>
+      group_attrs_down fa (pre ++ [g]) r
+        (match gattr_lookup (pre ++ [g]) fa with Some e => dict_update acc e | None => acc end)
+  end.
+Definition group_attrs (fa : list (list str * attrs)) (groups : list str) : attrs := group_attrs_down fa [] groups [].
+
+(* a variant that walks from the variable's group up to the root with the same update: the outer
+   group overrides (not the code; see Refuted.v) *)
+Fixpoint group_attrs_up (fa : list (list str * attrs)) (rp : list str) (acc : attrs) : attrs :=
+  match rp with
+  | [] => acc
+  | _ :: rp' =>
+      group_attrs_up fa rp'
+        (match gattr_lookup (rev rp) fa with Some e => dict_update acc e | None => acc end)
+  end.
+
+(* _create_field_or_domain: global attributes, updated with the group attributes, updated with
+   the variable's own attributes *)
+Definition field_props (glob : attrs) (fa : list (list str * attrs)) (groups : list str) (vattrs : attrs) : attrs :=
+  dict_update (dict_update glob (group_attrs fa groups)) vattrs.
+
+(* what is recorded by nc_set_group_attributes: every applicable group attribute, with its value
+   when the variable has an attribute of that name itself, else None *)
+Definition recorded_group_attrs (fa : list (list str * attrs)) (groups : list str) (vattrs : attrs)
+  : list (str * option str) :=
+  map (fun kv => (fst kv, match assoc_str (fst kv) vattrs with Some _ => Some (snd kv) | None => None end))
+      (group_attrs fa groups).
+
+(* ------------------------------------------------------------------ h5netcdf: the dimensions of a variable *)
+(* _Flattener.get_dims, h5netcdf branch (an h5netcdf variable only knows the NAMES of its
+   dimensions): walk from the variable's group to the root; in each group every dimension whose
+   name is still looked for is taken and the name struck off.  [all = false] is the code before
+   C11-fix3-1: list.remove strikes off ONE occurrence, so for a variable spanning a dimension
+   twice the search went on and an outer dimension of that name replaced the nearer one. *)
+Fixpoint remove1 (x : str) (l : list str) : list str :=
+  match l with [] => [] | y :: r => if str_eqb x y then r else y :: remove1 x r end.
+Fixpoint remove_all (x : str) (l : list str) : list str :=
+  match l with [] => [] | y :: r => if str_eqb x y then remove_all x r else y :: remove_all x r end.
+
+Fixpoint pset (k : str) (v : list str) (d : list (str * list str)) : list (str * list str) :=
+  match d with
+  | [] => [(k, v)]
+  | (k', v') :: r => if str_eqb k' k then (k', v) :: r else (k', v') :: pset k v r
+  end.
+Fixpoint pget (k : str) (d : list (str * list str)) : option (list str) :=
+  match d with [] => None | (k', v) :: r => if str_eqb k' k then Some v else pget k r end.
+
+Definition h5_step (all : bool) (path : list str) (gd : list str) (st : list str * list (str * list str))
+  : list str * list (str * list str) :=
+  fold_left (fun st d => if mem_str d (fst st)
+                         then ((if all then remove_all d (fst st) else remove1 d (fst st)), pset d path (snd st))
+                         else st) gd st.
+
+Fixpoint h5_walk (all : bool) (root : group) (rp : list str) (names : list str) (acc : list (str * list str))
+  : list (str * list str) :=
+  match find_group root (rev rp) with
+  | None => acc
+  | Some g =>
+      let st := h5_step all (rev rp) (gdims g) (names, acc) in
+      match rp with
+      | [] => snd st
+      | _ :: rp' => match fst st with [] => snd st | _ => h5_walk all root rp' (fst st) (snd st) end
+      end
+  end.
+
+(* the group in which each dimension of the variable is found (None = KeyError) *)
+Definition h5_get_dims_gen (all : bool) (root : group) (rp : list str) (vdims : list str) : list (option (list str)) :=
+  let d := h5_walk all root rp vdims [] in map (fun n => pget n d) vdims.
+Definition h5_get_dims := h5_get_dims_gen true.
+Definition h5_get_dims_old := h5_get_dims_gen false.
+
+(* the merged loop of seeded change s6: nothing is struck off, the outermost definition wins *)
+Fixpoint h5_walk_merged (root : group) (rp : list str) (names : list str) (acc : list (str * list str))
+  : list (str * list str) :=
+  match find_group root (rev rp) with
+  | None => acc
+  | Some g =>
+      let acc' := fold_left (fun a d => if mem_str d names then pset d (rev rp) a else a) (gdims g) acc in
+      match rp with [] => acc' | _ :: rp' => h5_walk_merged root rp' names acc' end
+  end.
+
